@@ -334,6 +334,7 @@ type Client struct {
 	work       chan func()
 	dead       *bool
 	Inc        int
+	passive    bool
 	Panic      interface{}
 	PanicStack string
 	broken     bool
@@ -355,6 +356,27 @@ func (w *World) NewClient(name string) *Client {
 	w.Solo(c, func() { c.open() })
 	return c
 }
+
+// NewPassiveClient registers a client identity without a goroutine of its
+// own: its connection is used from whichever client task calls it (a "fresh
+// process" opened in the middle of another client's script).
+func (w *World) NewPassiveClient(name string) *Client {
+	w.mu.Lock()
+	defer w.mu.Unlock()
+	if c, ok := w.byName[name]; ok {
+		return c
+	}
+	c := &Client{W: w, Name: name, passive: true}
+	dead := false
+	c.dead = &dead
+	w.Clients = append(w.Clients, c)
+	w.byName[name] = c
+	return c
+}
+
+// Open / CloseDB for passive clients (call on the using goroutine).
+func (c *Client) Open()    { c.open() }
+func (c *Client) CloseDB() { c.closeDB() }
 
 func (c *Client) open() {
 	db, err := sql.Open("sqlite3", ":memory:")
@@ -384,6 +406,10 @@ func (c *Client) closeDB() {
 }
 
 func (c *Client) shutdown() {
+	if c.passive {
+		c.closeDB()
+		return
+	}
 	c.W.Solo(c, func() { c.closeDB() })
 	close(c.work)
 }
